@@ -9,44 +9,74 @@ CONFIG = dict(
     rule=("(1) onwall / decomp / inter / synth: the real update components on prepared states (population of 1-6 "
           "individuals with objective values from 0, halves, negatives, 1e6- and 1e-6-scale, kinetic energies incl. 0 and "
           "1e4, buffer 0 / 1e-3 / up to 110, 0-2 further populations below) with the product objective steered to the "
-          "accept, reject, buffer-assisted (decomposition) and random regimes, scripted generator words incl. the "
-          "extremes 0 / 2^64-1, loss rates 0..0.999, equal-twin reactants, on-wall products identical to the reactant, "
-          "remembered bests better than the current individual; the draws the component received are read "
-          "back by replaying the same script (witness) and checked for legality; (2) *-malformed: wrong population sizes, "
-          "missing reactant, short stack, short molecule list, same reactant twice, loss rate >= 1; (3) dcrit / scrit: the "
-          "two criteria on prepared stacks incl. the [copy, selection, population] shape the CRO template produces; "
-          "(4) init: ChemicalReactionInit; (5) run: real_cro template runs (3 parameter points x 4 instances x seeds) "
-          "under the step observer: every reaction update (energy before/after within 1e-9 relative, no negative KE/"
-          "buffer, molecule count = population size, two populations consumed) and every loop-pass boundary; the state's "
-          "generator is swapped for a SplitMix-backed scripted one before the first draw, and EVERY reaction update of the "
-          "runs is re-emitted as a prepared case (individuals interned to tags, exact words consumed) that the model "
-          "re-derives exactly (run-onwall / run-decomp / run-inter / run-synth). "
+          "accept, reject, buffer-assisted (decomposition), random and - for on-wall and decomposition, where the compared "
+          "energies are single additions - exact-threshold (product energy == reactant energy) regimes, scripted generator "
+          "words incl. the extremes 0 / 2^64-1, loss rates 0..0.999, EQUAL individuals in the population for all four "
+          "updates (reactant present twice, three times, first reactant with a twin that is not the second reactant), "
+          "on-wall products identical to the reactant, remembered bests better than the current individual. "
+          "K is witness-based: the implementation agrees with the model when SOME legal reactant index (any index of an "
+          "individual equal to the reactant; two distinct ones for two reactants; the code's first-match choice is tried "
+          "first) and SOME legal draws explain its output - first the draws read back by replaying the same script with the "
+          "calls the current code makes, then draws read off the output itself (split ratio = new KE / distributed energy, "
+          "buffer share = 1 - buffer'/buffer), so neither the choice among equal twins nor order/number of generator "
+          "calls is pinned; (2) *-malformed: wrong population sizes, missing reactant, short stack, short molecule list, "
+          "same reactant twice, loss rate >= 1; (3) dcrit / scrit: the two criteria on prepared stacks incl. the [copy, "
+          "selection, population] shape the CRO template produces; (4) init: ChemicalReactionInit; (5) run: real_cro "
+          "template runs (all 4 parameter points incl. the degenerate one - 2 molecules, KE 0, buffer 0, loss rate 0, "
+          "thresholds 0 - x 4 instances x seeds) under the step observer: every reaction update (energy before/after "
+          "within 1e-9 relative, no negative KE/buffer, molecule count = population size, two populations consumed), every "
+          "loop-pass boundary, and the HISTORY: what update k leaves behind (count and total energy) is what update k+1 "
+          "starts from, from the molecule initialisation on (class leak); the state's generator is swapped for a "
+          "SplitMix-backed scripted one before the first draw, and EVERY reaction update of the runs is re-emitted as a "
+          "prepared case (individuals interned to tags, exact words consumed) that the model re-derives "
+          "(run-onwall / run-decomp / run-inter / run-synth). "
           "Non-trivial = a well-formed reaction, criterion or run; distinct = distinct input line."),
     nontrivial=lambda inp: "malformed" not in inp and not inp.startswith("(init"),
     trusted_base=[
-        "rand 0.8.8 sampling (gen_range, Uniform) is not modelled: the draws are witnesses read back from a replay of the "
-        "same scripted generator; the theorems quantify over all draws in [0,1] (alpha in [lr,1))",
+        "rand 0.8.8 sampling (gen_range, Uniform) is not modelled: the draws are witnesses (replayed from the scripted "
+        "generator or read off the output) checked for legality; the theorems quantify over all draws in [0,1] (alpha in [lr,1])",
         "the population stack is represented head = top; individuals are (tag, objective) pairs with Individual::eq = "
         "same solution and same objective",
-        "RefCell borrows inside the components are not modelled (C02)"],
-    assumptions=["theorems are in exact (ordered-field) arithmetic; the implementation is compared with the compiled "
-                 "model exactly for transported data (individuals, counters, bests, stack) and up to 1e-9 relative to the total energy for "
-                 "kinetic energies and buffer (association order / E*(1-d) vs E-E*d are not part of the property), and against the property with 1e-9 relative tolerance"],
+        "RefCell borrows inside the components are not modelled (C02)",
+        "MonoArith (monotone rounding, exact 0 and 1, total order) is what the rounded non-negativity theorems assume of "
+        "the carrier; that IEEE-754 doubles satisfy it away from NaN is argued, not proved (Float is opaque in Lean)"],
+    assumptions=["conservation / alignment / frame theorems are in exact (ordered-field) arithmetic; the implementation is "
+                 "compared with the compiled model exactly for transported data (individuals, counters, bests, stack) and up "
+                 "to 1e-9 relative to the total energy for kinetic energies and buffer (association order / E*(1-d) vs E-E*d "
+                 "are not part of the property), and against the property with 1e-9 relative tolerance",
+                 "which of several equal individuals reacts, and in which order / how often the generator is asked, is a "
+                 "legal witness (theorems hold for every legal witness); whether a reactant exists at all (Err / panic) is "
+                 "decided as the code does"],
     timeout_quick=600,
 )
 CONFIG.update(
-    level_text=("Lean 4 theorems over an arbitrary ordered field, for every state and every draw: each of the four "
-                "reaction updates that returns Ok leaves Sigma objective + Sigma kinetic energy + buffer unchanged (accepted, "
-                "rejected and buffer-assisted branches), keeps all kinetic energies and the buffer non-negative (draws in "
-                "[0,1], alpha in [lr,1]), keeps population and molecule list index-aligned (the zipped list changes only by "
-                "set-at-reactant-index / append-one / erase-second-reactant), consumes exactly the two top populations; "
-                "with fewer than three populations it is Err and nothing changes; ChemicalReactionInit creates one molecule "
-                "per individual in order; the criteria read the molecule at the first index whose individual equals the "
-                "selected one. The model is tied to /repo on prepared states of all branches (K exact) and on every "
-                "reaction update of real_cro runs (O)."),
+    level_text=("Lean 4 theorems, for every state, every draw and EVERY legal choice of reactant among equal individuals "
+                "(*_any; the code's first-match choice is proved legal on all states): each of the four reaction updates "
+                "that returns Ok leaves Sigma objective + Sigma kinetic energy + buffer unchanged (accepted, rejected and "
+                "buffer-assisted branches; ordered field), keeps all kinetic energies and the buffer non-negative (draws "
+                "in [0,1], alpha in [lr,1]) - also on any carrier with merely monotone rounded arithmetic "
+                "(reaction_nonneg_rounded, history_nonneg_rounded: not only 'up to rounding') -, keeps population and "
+                "molecule list index-aligned (the zipped list changes only by set-at-reactant-index / append-one / "
+                "erase-second-reactant, the index being one of an individual equal to the reactant), consumes exactly the "
+                "two top populations; with fewer than three populations it is Err and nothing changes. HISTORIES: for every "
+                "sequence of updates as the CRO loop produces them (any reactant/product populations pushed, any legal "
+                "witnesses) the total energy is the same at the end as at the start (history_conserves), the stack below "
+                "the population and its height are untouched (history_frame), and the run invariant - aligned, no negative "
+                "KE/buffer, min_hit <= num_hit, every molecule's remembered best at least as good as its individual - is "
+                "established by ChemicalReactionInit and preserved (init_establishes_invariant, history_keeps_invariant); "
+                "under it the decomposition criterion's u32 subtraction cannot underflow (decomposition_criterion_total). "
+                "The criteria read the molecule at the first index whose individual equals the selected one. The model is "
+                "tied to /repo on prepared states of all branches (K, witness-based) and on every reaction update and the "
+                "update-to-update chain of real_cro runs (O)."),
     level_note=("Trusted: Lean kernel; harness + driver; rand's samplers (witnessed, not modelled). Rounding is outside the "
-                "theorems (partial: rounding; the property says 'up to rounding', checked with 1e-9 relative tolerance). "
-                "Reactants are located by equality: with equal twins the first match is updated (modelled as is). "
-                "Observation outside the property statement: in the cro template the criteria are evaluated on the stack "
-                "[copy, selection, population], so their peek(1) is the selection and they always read molecule 0 (/1)."),
+                "conservation theorems (partial: rounding; the property says 'up to rounding', checked with 1e-9 relative "
+                "tolerance); non-negativity is proved for monotone rounded arithmetic, with IEEE conformance to MonoArith "
+                "assumed. Reactants are located by equality: with equal twins any of them may be updated (legal witness). "
+                "A run that ends Err/panic is not a C20 violation (C16's job). Non-finite objectives, negative initial "
+                "KE/buffer and loss rates outside [0,1) are outside the quantified region (the code does not validate them: "
+                "lr < 0 can produce negative kinetic energy, +inf objectives produce NaN). "
+                "Observations outside the property statement: in the cro template the criteria are evaluated on the stack "
+                "[copy, selection, population], so their peek(1) is the selection and they always read molecule 0 (/1); "
+                "SynthesisCriterion looks both selected individuals up with first-match position, so for two equal twins it "
+                "reads the first twin's molecule twice although the update components treat them as distinct molecules."),
 )
